@@ -120,10 +120,11 @@ fn token(r: &mut Rng, letters: bool, junk: bool) -> String {
 
 fn build(r: &mut Rng, letters: bool, junk: bool) -> String {
     loop {
-        let n = match r.below(10) {
-            0 => 0,
-            1 => 1,
-            2..=5 => r.range(2, 4),
+        let n = match r.below(40) {
+            0..=3 => 0,
+            4..=7 => 1,
+            8..=22 => r.range(2, 4),
+            23 => r.range(20, 120), // long versions: fixed-size buffers, block-wise scans
             _ => r.range(3, 8),
         };
         let mut s = String::new();
